@@ -3,6 +3,7 @@ import SamVerif.Model.CommentQueue
 import SamVerif.Model.Imports
 import SamVerif.Model.Attach
 import SamVerif.Model.ExprDoc
+import SamVerif.Model.CommentText
 import Driver.Util
 /-! Protocols of C09 (model side): `layout`, `expand`, `flatten`, `layoutdoc`, `agree`, `queue`,
 `prepend`, `echo`. Same line formats as `harness/src/bin/c09.rs`. -/
@@ -277,6 +278,7 @@ def step (_ : Unit) (line : String) : Unit × String :=
     let showPlain (cs : List Comment) := if cs.isEmpty then "-" else ",".intercalate (cs.map fun c => String.ofList c.text)
     let es := elems.map fun (n, cs) => String.ofList n ++ "=" ++ showPlain cs
     (if es.isEmpty then "-" else ";".intercalate es) ++ "|" ++ showPlain ecs ++ "|" ++ showPlain st.pending
+  | ["ctext", body] => "t:" ++ hexOfStr (SamVerif.CommentText.postProcess (strOfHex body))
   | "echo" :: rest => " ".intercalate rest
   | _ => "bad-op")
 
